@@ -1507,6 +1507,143 @@ def run_scale(ctx, sq, n):
         ctx.cov["hessian_scale_exact_param_derivatives"] = len(terms)
 
 
+# ------------------------------------------------------------------ (j) hessian on arrays whose parameter second derivatives vanish for some entries
+def gen_zero_entry_case(rng):
+    """x, y: differentiated array variables (x contains an exact 0), w: an array 'constant' with a zero entry;
+    parameter expressions that are non-linear so that d2param/dv dw is zero for some batch entries only"""
+    n = rng.choice([3, 4])
+    xs = [-1.0, 0.0, 1.0, 1.5, 0.5][:n]
+    rng.shuffle(xs)
+    ws = [0.0, 60.0, 120.0, 90.0][:n]
+    rng.shuffle(ws)
+    vals = {"x": np.array(xs), "y": np.array([0.9, 1.0, 1.1, 0.8][:n]), "w": np.array(ws)}
+    x, y, w = V("x"), V("y"), V("w")
+    forms = {
+        "alpha": [A("mul", A("pow", y, C(2)), w), A("add", C(60), A("mul", C(20), A("pow", x, C(3)))),
+                  A("add", C(50), A("mul", A("mul", x, x), A("mul", C(10), y)))],
+        "phi": [A("mul", C(10), A("mul", A("mul", x, x), y)), A("mul", A("mul", y, y), A("div", w, C(4)))],
+        "T2": [A("add", C(40), A("mul", C(5), A("pow", x, C(3)))), A("add", C(50), A("mul", C(4), A("mul", A("mul", x, x), y)))],
+        "tau": [A("add", C(5), A("mul", A("mul", x, x), y)), A("add", C(5), A("mul", C(Fraction(1, 2)), A("pow", x, C(3))))],
+        "T1": [A("add", C(1000), A("mul", C(50), A("mul", A("mul", x, x), y)))],
+    }
+    ops = [{"op": "T", "args": {"alpha": C(40), "phi": C(0)}, "kw": []}]
+    used = 0
+    for b in range(rng.randint(2, 3)):
+        ops.append({"op": "S", "args": {"k": C(1)}, "kw": []})
+        e = {"tau": C(5), "T1": C(1000), "T2": C(50)}
+        t = {"alpha": C(rng.choice([60, 120])), "phi": C(30)}
+        for d, names in ((e, ["tau", "T1", "T2"]), (t, ["alpha", "phi"])):
+            for pn in names:
+                if rng.random() < 0.45 or (used == 0 and pn == "phi"):
+                    d[pn] = rng.choice(forms[pn])
+                    used += 1
+        ops.append({"op": "E", "args": e, "kw": []})
+        ops.append({"op": "T", "args": t, "kw": []})
+        ops.append({"op": "ADC"})
+    return {"ops": ops, "vals": vals}, (n,)
+
+
+def run_zero_entries(ctx, sq, n):
+    reported = False
+    for k in range(n):
+        case, shape = gen_zero_entry_case(ctx.rng)
+        s, desc = build_shared(case, sq), shared_desc(case)
+        wrt = sorted({str(v) for v in s.variables} & {"x", "y"})
+        if not wrt:
+            continue
+        vals = {k_: v for k_, v in case["vals"].items() if k_ in {str(v_) for v_ in s.variables}}
+        ctx.count(("zero-entries", desc, tuple(wrt)), nontrivial=True)
+        ctx.cov["hessian_zero_entry_cases"] = ctx.cov.get("hessian_zero_entry_cases", 0) + 1
+        why = batch_check(s, vals, shape, wrt)
+        if why and not reported:
+            reported = True
+            ctx.report("Sequence %s with array values %s (second derivatives of the parameters vanish for some entries only), variables %s: %s" % (
+                desc, {k_: np.asarray(v).tolist() for k_, v in vals.items()}, wrt, why[1]),
+                {"kind": "batch", "sequence": desc, "case": case_json(case), "batch_shape": list(shape), "wrt": wrt,
+                 "values": {k_: np.asarray(v).tolist() for k_, v in vals.items()}, "why": why[1]},
+                found_input=True, signature={"site": why[0], "why": "batch-zero-second-derivative-entries"})
+
+
+def case_json(case):
+    return {"ops": case["ops"], "vals": {k: np.asarray(v).tolist() for k, v in case["vals"].items()}}
+
+
+# ------------------------------------------------------------------ (k) non-differentiable operators (D, kvalue) between differentiable ones
+def gen_diffusion_case(rng, sq):
+    ops = sq.operators
+    alpha, T2, b1, tau = (sq.Variable(nm) for nm in ["alpha", "T2", "b1", "tau"])
+    values = {"alpha": rng.choice([120.0, 140.0, 160.0]), "T2": rng.choice([40.0, 60.0]), "b1": rng.choice([0.85, 0.9, 1.05]),
+              "tau": rng.choice([4.0, 5.0])}
+    kv = rng.choice([1e5, 2e5, 3e5])
+    dc = rng.choice([2e-3, 3e-3])
+    necho = rng.randint(3, 4)
+    exc, rfc = ops.T(90 * b1, 90), ops.T(alpha * b1, rng.choice([0, 10]))
+    # D is not differentiable: its arguments hold no differentiated variable
+    rlx, grd, dif = ops.E(tau, 1000, T2), ops.S(1), ops.D(rng.choice([4.0, 5.0]), dc, 1)
+    block = rng.choice([[grd, dif, rlx, rfc, grd, dif, rlx, "ADC"], [grd, dif, rlx, rfc, grd, rlx, dif, "ADC"]])
+    how = rng.choice(["options", "System"])
+    if how == "options":
+        s = sq.Sequence([exc] + block * necho, options={"kvalue": kv})
+    else:
+        s = sq.Sequence([ops.System(kvalue=kv), exc] + block * necho)
+    return s, values, "CPMG with D(<4|5>, %g, 1) x%d, kvalue=%g via %s, D %s relaxation" % (dc, necho, kv, how, "before" if block[5] is rlx else "after")
+
+
+def diffusion_check(s, values, names):
+    sig, jac, hes = s.hessian(names)(dict(values))
+    s0 = s.signal()(dict(values))
+    if not np.array_equal(sig, s0):
+        return "Sequence.hessian", "signal of hessian() differs from signal()"
+    step = {v: 1e-4 * abs(values[v]) for v in names}
+
+    def sh(**d):
+        return s.signal()({k: values[k] + d.get(k, 0.0) for k in values})
+    for i, u in enumerate(names):
+        fd = (sh(**{u: step[u]}) - sh(**{u: -step[u]})) / (2 * step[u])
+        if np.abs(jac[..., i] - fd).max() > 1e-5 * (np.abs(fd).max() + np.abs(s0).max() / abs(values[u])):
+            return "Sequence.hessian", "d signal / d %s = %s, central difference of signal() = %s" % (u, np.round(jac[..., i], 8).tolist(), np.round(fd, 8).tolist())
+    for i, u in enumerate(names):
+        for j, v in enumerate(names):
+            hu, hv = step[u], step[v]
+            if i == j:
+                fd = (sh(**{u: hu}) - 2 * s0 + sh(**{u: -hu})) / hu ** 2
+            else:
+                fd = (sh(**{u: hu, v: hv}) - sh(**{u: hu, v: -hv}) - sh(**{u: -hu, v: hv}) + sh(**{u: -hu, v: -hv})) / (4 * hu * hv)
+            scale = np.abs(fd).max() + np.abs(s0).max() / abs(values[u] * values[v])
+            if np.abs(hes[..., i, j] - fd).max() > 2e-3 * scale:
+                return "Sequence.hessian", "d2 signal / d%s d%s = %s, finite differences of signal() = %s" % (
+                    u, v, np.round(hes[..., i, j], 8).tolist(), np.round(fd, 8).tolist())
+    return None
+
+
+def run_diffusion(ctx, sq, n):
+    rng = ctx.rng
+    seen = set()
+    for k in range(n):
+        s, values, desc = gen_diffusion_case(rng, sq)
+        names = rng.sample(sorted(values), rng.randint(2, 4))
+        ctx.count(("diffusion", desc, tuple(names), tuple(sorted(values.items()))), nontrivial=True)
+        ctx.cov["hessian_diffusion_cases"] = ctx.cov.get("hessian_diffusion_cases", 0) + 1
+        checks = [lambda: diffusion_check(s, values, names)]
+        variables = ["T2", "alpha"]
+        gradient = rng.sample(sorted(values), rng.randint(2, 3))
+
+        def crlb_():
+            w = crlb_check(s, values, variables, gradient, {})
+            return ("Sequence.crlb", "crlb(%s, gradient=%s): %s" % (variables, gradient, w)) if w else None
+        checks.append(crlb_)
+        for fn in checks:
+            try:
+                why = fn()
+            except Exception as e:
+                why = ("Sequence.hessian", "raised %s: %s" % (type(e).__name__, str(e)[:200]))
+            if why and why[0] not in seen:
+                seen.add(why[0])
+                ctx.report("Sequence %s at %s, variables %s: %s" % (desc, values, names, why[1]),
+                           {"kind": "diffusion", "sequence": desc, "values": values, "variables": names, "why": why[1]},
+                           found_input=True, signature={"site": why[0], "why": "plain-operator-between-differentiable-ones"})
+
+
 # ------------------------------------------------------------------ verdicts computed inside Coq
 def coq_vop_verdicts(ctx, vops):
     terms = ["vop_binding_ok (nth %d vop_table (Build_vop_entry \"\" \"\" [] [] []))" % i for i in range(len(vops))]
@@ -1551,6 +1688,8 @@ def run(ctx):
     run_crlb_gradients(ctx, sq, 3 if quick else 30)
     if proved:
         run_scale(ctx, sq, 10 if quick else 100)
+    run_zero_entries(ctx, sq, 6 if quick else 60)
+    run_diffusion(ctx, sq, 3 if quick else 30)
     ctx.cov["trusted_base"] += [
         "translator /verif/translator/seq_tables.py (Python ast -> Gen/SeqTables.v: math table, virtual-operator table, __init__ signatures)",
         "hand-written model Model/Expr.v (ten python/numpy primitives, Expression.derive/map transcription), tied to epgpy.sequence by exact rational and Interval correspondence",
@@ -1659,6 +1798,9 @@ def replay(ctx, rp):
         return 1 if why else 0
     if kind == "crlb-gradient":
         print("replay: rebuild %s by hand; crlb(%s, gradient=%s, **%s) at %s: %s" % (rp["sequence"], rp["variables"], rp["gradient"], rp["options"], rp["values"], rp["why"]))
+        return 1
+    if kind == "diffusion":
+        print("replay: rebuild by hand: %s at %s, variables %s: %s" % (rp["sequence"], rp["values"], rp["variables"], rp["why"]))
         return 1
     if kind == "vop-option":
         try:
